@@ -138,14 +138,16 @@ def hot_doc(r):
     return "".join(parts)
 
 
-def uniquify(doc):
+def uniquify(doc, first="w"):
+    """every word becomes a unique token <first><number>q; the first letter varies between documents (a word that begins like
+    the mark of a task-list checkbox, x or X, must survive as well)"""
     n = [0]
 
     def rep(m):
         if m.group(0) in RESERVED:
             return m.group(0)
         n[0] += 1
-        return "w%dq" % n[0]
+        return "%s%dq" % (first, n[0])
     return WORD.sub(rep, doc), n[0]
 
 
@@ -154,7 +156,7 @@ def tree_words(tokens, env, escape_url):
 
     def add(s):
         if isinstance(s, str):
-            c.update(re.findall(r"w\d+q", s))
+            c.update(re.findall(r"[wxX]\d+q", s))
 
     def walk(ts):
         for t in ts:
@@ -190,7 +192,7 @@ def check_doc(m, doc, plugins, fails, shrink=True):
     def problems(d):
         toks, state = md.parse(d)
         have = tree_words(toks, state.env, m.escape_url)
-        want = collections.Counter(re.findall(r"w\d+q", d))
+        want = collections.Counter(re.findall(r"[wxX]\d+q", d))
         # a reference link carries its label both as 'label' and (through the definition) in env: the use-site label is one occurrence
         lost = {w: n for w, n in want.items() if have.get(w, 0) < n}
         dup = {w: have[w] for w in have if have[w] > want.get(w, 0)}
@@ -284,11 +286,11 @@ def oracle(ctx, extra):
             base = gen_docs.mutate(r, gen_docs.doc(r, plugins=names))
         else:
             base = gen_docs.noise(r)
-        doc, nw = uniquify(base)
+        doc, nw = uniquify(base, r.choice("wwwxX"))
         if r.random() < 0.5:
             # words are unique, so no reference would ever meet its definition: let one use site carry the label of one definition
-            dm = re.search(r"^ {0,3}\[(w\d+q)\]: ", doc, re.M)
-            um = re.search(r"\]\[(w\d+q)\]", doc)
+            dm = re.search(r"^ {0,3}\[([wxX]\d+q)\]: ", doc, re.M)
+            um = re.search(r"\]\[([wxX]\d+q)\]", doc)
             if dm and um:
                 doc = doc[:um.start(1)] + dm.group(1) + doc[um.end(1):]
         if check_doc(m, doc, plugins, fails):
